@@ -187,7 +187,8 @@ def r2(ck, F):
                 ok, why = False, "on the shared path refresh_writer is not conditioned on having won advance_date's CAS: several threads could rotate at one boundary"
             # the CAS winner is the only thread that will ever rotate at this boundary (next_date has already moved on):
             # nothing else may stand between winning and rotating -- a lock that happens to be busy, a second time test
-            extra = [t for t, v in g if not (t.startswith("discr(should_rollover(") or t.startswith("advance_date(") or t in ("0", "1"))]
+            latest = [t for t, v in g if v != 0 and still_latest_guard(F, t)]
+            extra = [t for t, v in g if not (t.startswith("discr(should_rollover(") or t.startswith("advance_date(") or t in ("0", "1") or t in latest)]
             if ok and extra:
                 ok, why = False, ("the rotation is skipped under a further condition (%s) although the boundary was already advanced: no later write retries it, "
                                   "so the whole period is written to the previous file" % "; ".join(x[:80] for x in extra))
@@ -211,6 +212,19 @@ def r2(ck, F):
             ck.ok("C16.R2", "%s: rotate only as the elected rotator, in order" % name, fn=b.path)
         else:
             ck.bad("C16.R2", "%s: rotate only as the elected rotator, in order" % name, where(b.raw["sp"]), why, fn=b.path)
+        if shared and ok:
+            # winning the CAS and installing the file are two steps with the writer lock in between: a rotator for a later
+            # period can overtake. The file may only be installed while this rotation is still the latest one, and that
+            # has to be established with the lock already held
+            k2 = "make_writer: a rotator that waited for the lock installs its file only while its rotation is still the latest"
+            locks = [bb for bb, t in b.calls() if t["callee"].get("method") == "write" and "RwLock" in t["callee"].get("path", "")]
+            loads = [bb for bb, t in b.calls() if t["callee"].get("method") == "load" and "next_date" in str(b.origin(t["argv"][0]))]
+            if latest and len(locks) == 1 and any(b.dominates(locks[0], l) and b.dominates(l, rw[0]) for l in loads):
+                ck.ok("C16.R2", k2, fn=b.path)
+            else:
+                ck.bad("C16.R2", k2, where(b.raw["sp"]), "after winning advance_date's CAS the file for this thread's clock reading is installed unconditionally once the "
+                       "writer lock is obtained: a thread that rotated for a later period in the meantime has its newer file replaced by the older one, "
+                       "and every write until the next boundary lands in the wrong file", fn=b.path)
         # the write itself happens on every path, after any rotation
         if not shared:
             w = [bb for bb, t in b.calls() if t["callee"].get("trait") == "std::io::Write" and t["callee"].get("method") == "write"]
@@ -218,6 +232,30 @@ def r2(ck, F):
                 ck.ok("C16.R2", "Write::write writes the buffer once on every path", fn=b.path)
             else:
                 ck.bad("C16.R2", "Write::write writes the buffer once on every path", where(b.raw["sp"]), "the buffer is not written exactly once on every path", fn=b.path)
+
+
+def still_latest_guard(F, text):
+    """`next_date` still holds what this thread's advance_date stored: (load(..next_date) == <the value advance_date
+    computes from the same `now`>), either side first, or compared with a value advance_date handed back."""
+    if " Eq " not in text or "load(" not in text or "next_date" not in text:
+        return False
+    lhs, rhs = text[1:-1].split(" Eq ", 1) if text.startswith("(") else text.split(" Eq ", 1)
+    if not lhs.startswith("load("):
+        lhs, rhs = rhs, lhs
+    if not (lhs.startswith("load(") and ".next_date" in lhs):
+        return False
+    if "advance_date(" in rhs:
+        return True
+    ad = F.body(R + "Inner::advance_date")
+    if ad is None:
+        return False
+    for p in PathEval(ad).run():
+        for c in p.calls:
+            if c[1].get("method") in ("compare_exchange", "compare_exchange_weak") and len(c[2]) >= 3:
+                stored = show(c[2][2]).replace("arg1.", "arg1.state.").replace("arg2", "now(arg1)")
+                if stored == rhs:
+                    return True
+    return False
 
 
 def r3(ck, F):
